@@ -50,6 +50,13 @@ def wf_duration(spec: dict) -> int:
 def build_pulse(spec: dict):
     from pulser import Pulse
 
+    if spec.get("ctor") == "arbitrary_phase":
+        # the same pulse through the other constructor: a constant phase waveform
+        # means zero detuning and that constant phase offset
+        import pulser.waveforms as wf
+
+        d = wf_duration(spec["amp"])
+        return Pulse.ArbitraryPhase(build_wf(spec["amp"]), wf.ConstantWaveform(d, spec["phase"]), post_phase_shift=spec.get("pps", 0.0))
     return Pulse(
         build_wf(spec["amp"]),
         build_wf(spec["det"]),
